@@ -128,6 +128,21 @@ CASES = [
     ('np_argmin_list', [(L([3.0, -1.0, 2.0]),)]),
     ('list_truth', [(L([]),), (L([0]),)]),
     ('array_size_truth', [(np.array([1.0]),), (np.array([]),)]),
+    ('array_of_list', [(L([1.5, 2.0]),), (L([1, 2, 3]),)]),
+    ('asarray_sum_axis0', [([[1.0, 2.0], [3.0, 4.0], [5.0, 6.0]],)]),
+    ('integer_valued', [(np.array([1.0, 2.0]),), (np.array([1.0, 2.5]),), (L([3.0, 4.0]),)]),
+    ('last_as_array', [(L([0.5, 1.0, 2.5]),)]),
+    ('ones_times', [(Sym(3), 2.5)]),
+    ('append_to_list', [(L([1.0, 2.0]), 3.0)]),
+    ('unzip_rows', [([(1, 2.0), (3, 4.0)],)]),
+    ('tolist_roundtrip', [(np.array([1.0, 2.0]),)]),
+    ('list_times_array', [(L([1.0, 2.0]), np.array([3.0, 0.5]))]),
+    ('dot_list', [(L([1.0, 2.0]), np.array([3.0, 0.5]))]),
+    ('mutate_list', [(Sym(3), Sym(1), Sym(5)), (Sym(2), Sym(-1), Sym(4))]),
+    ('list_extend_append', [(L([1, 2]), Sym(9))]),
+    ('nested_index', [([[1.0, 2.0], [3.0, 4.0]], Sym(1), Sym(0))]),
+    ('enumerate_start', [(L([5, 6]),)]),
+    ('any_positive_rate', [(np.array([0.0, 0.0]),), (np.array([0.0, 1.5]),)]),
     ('minimum_clip', [(np.array([0.5, 2.0, 3.5]), 2.0)]),
     ('minimum_pair', [(np.array([0.5, 2.0]), np.array([1.0, 1.0]))]),
 ]
